@@ -211,7 +211,7 @@ PROPS["C14"] = {
 }
 
 PROPS["C11"] = {
-    "components": [Sched("cfg", 4000, 150000), Sched("diag", 1500, 60000), Seq("consumers", 400, 20000, label="diag", crash_is_violation=True), RaceRun(),
+    "components": [Sched("cfg", 4000, 150000, only="C11:"), Sched("diag", 1500, 60000), Seq("consumers", 400, 20000, label="diag", crash_is_violation=True), RaceRun(),
                    CircuitSeq("C11", ["res:libpanic"], 1500, 60000)],
     "generated": ["lockfacts"],
     "rule": "cfg: one Execute (success / failure / context-error outcome, live or cancelled caller context, closed or open circuit) races one SetConfigThreadSafe changing exactly one setting (run limit, timeout, fallback limit, ForceOpen, ForcedClosed, Disabled, Fallback.Disabled, IgnoreInterrupts; 23 old->new pairs); the observed outcome must equal the outcome under the old or under the new configuration; distinct by (configuration, schedule). diag (schedules): calls of every outcome kind on a circuit whose collectors and interrupt classifier use Config/IsOpen/Name/gauges from inside their callbacks, racing SetConfigThreadSafe / Var / OpenCircuit+CloseCircuit; monitored: no deadlock. diag (consumers suite): diagnostics after partial SetConfigThreadSafe. circuit suite (sequential histories with partial live reconfigurations and every outcome kind): no call may end in a panic that the run function / fallback did not raise. racerun: control plane + diagnostics vs traffic under the Go race detector.",
@@ -237,6 +237,13 @@ PROPS["C16"]["trusted_base"] = PROPS["C16"]["trusted_base"] + TB_SCHED
 PROPS["C03"]["components"].append(Sched("tc", 1500, 60000, label="sched-tc-gate"))
 PROPS["C03"]["trusted_base"] = PROPS["C03"]["trusted_base"] + TB_SCHED
 
+PROPS["C07"]["components"].append(Sched("cfg", 3000, 100000, label="sched-cfg-deadline", only="C07:"))
+PROPS["C07"]["rule"] += " cfg (schedules): one call racing one Timeout change: the deadline its run function sees is start+old or start+new (or none), never anything else."
+for _pid in ("C04", "C07", "C08", "C11"):
+    PROPS[_pid]["components"].append(Sched("cfg2", 1500, 60000, only=_pid + ":"))
+    PROPS[_pid]["rule"] += " cfg2 (schedules): two overlapping SetConfigThreadSafe calls with different settings (+ optionally a reader); once both returned, what Config() reports must be what is enforced (override flags, timeout, both limits), observed through IsOpen and a lone probe call."
+    if TB_SCHED[0] not in PROPS[_pid]["trusted_base"]:
+        PROPS[_pid]["trusted_base"] = PROPS[_pid]["trusted_base"] + TB_SCHED
 PROPS["C08"]["components"].append(OverrideMeta(1500, 40000))
 PROPS["C08"]["rule"] += " override-meta (metamorphic, real code only): histories with an episode setcfg fo=1|dis=1, calls, setcfg fo=0|dis=0 (often over an open circuit whose sleep window has elapsed) are re-run with the episode replaced by the passage of its clock readings; every later op must answer identically ('clearing an override resumes the underlying state')."
 PROPS["C10"]["components"].append(Sched("gauge", 2000, 100000, label="sched-gauge-panic", only="C10:"))
